@@ -566,7 +566,7 @@ func vdCases(s *vdSubject, tp *vdTape, thorough bool, rnd *rand.Rand) []vdCase {
 			mut = append(mut, c)
 		}
 	}
-	for k := 0; k < 60; k++ {
+	for k := 0; k < 120; k++ {
 		var b []byte
 		fix := false
 		switch k % 4 {
